@@ -4,6 +4,8 @@ package evmclient
 // package: it imports evmclient).  Every answer is under the harness' control.
 
 import (
+	"fmt"
+	"net"
 	"time"
 	"context"
 	"crypto/ecdsa"
@@ -29,6 +31,8 @@ type vStub struct {
 	pendingErr  bool
 	fault       string // estimate | tip | price | submit | ""
 	confirmed   uint64
+	confirmedErr bool // the confirmed-nonce query fails (the pending-nonce query still answers)
+	nonceAtCalls int
 	block       uint64
 	monitorLive bool
 	accepted    []uint64 // nonces of transactions SendTransaction accepted, in order
@@ -78,6 +82,10 @@ func (s *vStub) PendingNonceAt(context.Context, common.Address) (uint64, error) 
 func (s *vStub) NonceAt(context.Context, common.Address, *big.Int) (uint64, error) {
 	s.mu.Lock()
 	defer s.mu.Unlock()
+	s.nonceAtCalls++
+	if s.confirmedErr {
+		return 0, errors.New("header not found")
+	}
 	return s.confirmed, nil
 }
 func (s *vStub) SuggestGasPrice(context.Context) (*big.Int, error) {
@@ -120,8 +128,15 @@ func (s *vStub) SendTransaction(_ context.Context, tx *types.Transaction) error 
 	s.mu.Lock()
 	defer s.mu.Unlock()
 	s.offered = append(s.offered, tx.Nonce())
-	if s.fault == "submit" {
+	switch s.fault {
+	case "submit":
 		return errInjected
+	case "submit-deadline": // as the RPC client reports a caller context that ran out mid-request
+		return fmt.Errorf("Post \"http://node\": %w", context.DeadlineExceeded)
+	case "submit-canceled":
+		return context.Canceled
+	case "submit-transport":
+		return &net.OpError{Op: "write", Net: "tcp", Err: errors.New("connection reset by peer")}
 	}
 	s.accepted = append(s.accepted, tx.Nonce())
 	s.txs[tx.Hash()] = tx
